@@ -294,7 +294,7 @@ def regenerate(c, rseed, index, budget=100000):
 LAST_INDEX = [None]
 
 
-def search_violation(c, rng, budget=3000, size=4):
+def search_violation(c, rng, budget=3000, size=4, fn=None):
     """Random small-scope search for an input that satisfies requires and violates ensures natively."""
     if isinstance(rng, int):
         rng = random.Random(rng)
@@ -305,7 +305,7 @@ def search_violation(c, rng, budget=3000, size=4):
     for argmap in gen:
         tried += 1
         try:
-            o = check_native(c, to_real(argmap), env)
+            o = check_native(c, to_real(argmap), env, fn=fn)
         except Exception as ex:  # builder problems etc.
             continue
         if o.pre_ok:
